@@ -33,9 +33,9 @@ RULE = ("case = one configuration (differential) or one (configuration, crash po
 ASSUMPTIONS = ["Linux /proc", "the harness puts /venv/bin on PATH so that the plug-in runner script is found", "population methods get an explicit seed option"]
 CASE_TIMEOUT = 240
 SHARD_TIMEOUT = {"quick": 900, "thorough": 7200}
-REQUIRED = {"quick": {"external_runs": 25, "trace_pairs_compared": 8, "kill_runs": 8, "evaluator_exception_runs": 3, "process_table_checked": 25, "messages_counted": 100, "messages_beyond_one_pipe_buffer": 7, "configurations_compared_at_the_pipe": 14, "explicit_start_vector_pairs": 3, "external_runs_with_an_evaluation_beyond_the_polling_interval": 3, "__nontrivial__": 20},
-            "thorough": {"external_runs": 300, "trace_pairs_compared": 80, "kill_runs": 120, "evaluator_exception_runs": 50, "process_table_checked": 300, "messages_counted": 2000, "messages_beyond_one_pipe_buffer": 70, "configurations_compared_at_the_pipe": 140, "external_runs_with_an_evaluation_beyond_the_polling_interval": 25, "__nontrivial__": 250}}
-N = {"quick": {"diff": 27, "kill": 3, "exc": 2}, "thorough": {"diff": 270, "kill": 30, "exc": 20}}
+REQUIRED = {"quick": {"external_runs": 25, "trace_pairs_compared": 8, "kill_runs": 8, "optimizer_process_exit_runs": 5, "evaluator_exception_runs": 3, "process_table_checked": 25, "messages_counted": 100, "messages_beyond_one_pipe_buffer": 7, "configurations_compared_at_the_pipe": 14, "explicit_start_vector_pairs": 3, "pairs_with_path_options": 4, "external_runs_with_an_evaluation_beyond_the_polling_interval": 3, "__nontrivial__": 20},
+            "thorough": {"external_runs": 300, "trace_pairs_compared": 80, "kill_runs": 120, "optimizer_process_exit_runs": 80, "evaluator_exception_runs": 50, "process_table_checked": 300, "messages_counted": 2000, "messages_beyond_one_pipe_buffer": 70, "configurations_compared_at_the_pipe": 140, "pairs_with_path_options": 40, "external_runs_with_an_evaluation_beyond_the_polling_interval": 25, "__nontrivial__": 250}}
+N = {"quick": {"diff": 27, "kill": 3, "exc": 2, "exit": 2}, "thorough": {"diff": 270, "kill": 30, "exc": 20, "exit": 20}}
 MAX_ROUNDS_AFTER_DEATH = 6
 
 
@@ -50,6 +50,11 @@ def cases(tier, seed):
     for i in range(n["exc"]):
         for k in range(0, 3 if tier == "quick" else 6):
             yield {"mode": "exc", "i": i, "k": k}
+    for i in range(n["exit"]):
+        for k in range(-1, 4 if tier == "quick" else 8):
+            # the optimizer process ends by itself with an error status instead of sending its k-th message (-1: at start-up),
+            # without reporting anything: a library calling exit(), a failing import, an unhandled error outside its reporting
+            yield {"mode": "exit", "i": i, "k": k, "status": [1, 3, 70][(k + i) % 3]}
 
 
 def gen_spec(rng, i):
@@ -206,7 +211,7 @@ class Pipes:
                 me.writes += 1
                 if isinstance(data, dict) and "variables" in data and "optimizer" in data:
                     me.config_sent = data
-                if len(json.dumps(data, default=lambda o: o.tolist())) > 4096:
+                if len(json.dumps(data, default=lambda o: o.tolist() if hasattr(o, "tolist") else str(o))) > 4096:       # (the monitor's own encoding: size only)
                     me.big_writes += 1
                 if me.kill_after is not None and me.kill_after >= 0 and me.writes == me.kill_after + 1 and me.killed is None:
                     for pid in _children():
@@ -335,6 +340,139 @@ def _check_process_table(obs, when, tag):
     return True
 
 
+_WRAPPER = """#!{python}
+# stands in for the plug-in runner: the genuine entry point, except that the process ends with an error status
+# instead of sending its k-th message (k < 0: before anything else)
+import os, stat, sys
+K, STATUS, MARK = int(os.environ["VERIF_EXIT_AT"]), int(os.environ["VERIF_EXIT_STATUS"]), os.environ["VERIF_EXIT_MARK"]
+def _leave():
+    with open(MARK, "w") as fh:
+        fh.write("left")
+    os._exit(STATUS)
+if K < 0:
+    _leave()
+_write, _n = os.write, [0]
+def write(fd, data):
+    if stat.S_ISFIFO(os.fstat(fd).st_mode):
+        if _n[0] == K:
+            _leave()
+        _n[0] += 1
+    return _write(fd, data)
+os.write = write
+from ropt.plugins.optimizer.external import ropt_plugin_optimizer
+sys.exit(ropt_plugin_optimizer())
+"""
+
+
+def _exit_case(case, obs, spec, tag):
+    import shutil  # noqa: PLC0415
+    import sys  # noqa: PLC0415
+    import tempfile  # noqa: PLC0415
+
+    from ropt.enums import OptimizerExitCode as X  # noqa: PLC0415,N817
+
+    d = tempfile.mkdtemp(prefix="verif_c20_")
+    runner = os.path.join(d, "ropt_plugin_optimizer")
+    with open(runner, "w") as fh:
+        fh.write(_WRAPPER.format(python=sys.executable))
+    os.chmod(runner, 0o755)
+    mark = os.path.join(d, "left")
+    saved = {k: os.environ.get(k) for k in ("PATH", "VERIF_EXIT_AT", "VERIF_EXIT_STATUS", "VERIF_EXIT_MARK")}
+    os.environ.update({"PATH": d + os.pathsep + os.environ.get("PATH", ""), "VERIF_EXIT_AT": str(case["k"]), "VERIF_EXIT_STATUS": str(case["status"]),
+                       "VERIF_EXIT_MARK": mark})
+    try:
+        b = run_trace(spec, True)
+        left = os.path.exists(mark)
+    finally:
+        for k, v in saved.items():
+            if v is None:
+                os.environ.pop(k, None)
+            else:
+                os.environ[k] = v
+        shutil.rmtree(d, ignore_errors=True)
+    obs.count("external_runs")
+    _check_process_table(obs, "after a run whose optimizer process ended by itself", tag)
+    if not left:
+        obs.count("exit_point_beyond_run")
+        return
+    obs.count("optimizer_process_exit_runs")
+    obs.nontrivial(case)
+    if b["exc"] is None and b["code"] == int(X.OPTIMIZER_STEP_FINISHED):
+        obs.violation("optimizer_process_that_ended_with_an_error_status_reported_as_normal_completion", left_instead_of_message=case["k"],
+                      exit_status=case["status"], exit_code=b["code"], **tag)
+        return
+    obs.feature(f"exit_status.{case['status']}")
+    obs.sample({"left_instead_of_message": case["k"], "exit_status": case["status"], "outcome": repr(b["exc"]) if b["exc"] else b["code"]})
+
+
+def _diff_case(case, obs, spec, rng, tag):
+    from ropt.enums import OptimizerExitCode as X  # noqa: PLC0415,N817
+
+    abort_at = None
+    if rng.random() < 0.25:
+        from ropt.exceptions import OptimizationAborted  # noqa: PLC0415
+
+        abort_at = int(rng.integers(0, 4))
+    mk = (lambda: {abort_at: OptimizationAborted(exit_code=X.USER_ABORT)}) if abort_at is not None else (lambda: None)
+    start = None
+    if rng.random() < 0.4:
+        # the step is started from explicitly passed variables (restart from an earlier result)
+        start = np.asarray(spec["x0"]) + rng.uniform(-0.2, 0.2, size=spec["V"])
+        if spec.get("lb") is not None:
+            start = np.clip(start, np.asarray(spec["lb"]) + 1e-6, np.asarray(spec["ub"]) - 1e-6)
+        obs.count("explicit_start_vector_pairs")
+    a = run_trace(spec, False, raise_at=mk(), start=start)
+    slow = {int(rng.integers(0, 3)): float(rng.choice([1.3, 2.4]))} if case["i"] % 5 == 2 else None
+    pipes = Pipes()
+    pipes.install()
+    try:
+        b = run_trace(spec, True, raise_at=mk(), start=start, slow=slow)
+    finally:
+        pipes.remove()
+    if slow and slow.get("slept"):
+        obs.count("external_runs_with_an_evaluation_beyond_the_polling_interval")
+    obs.count("external_runs")
+    obs.count("messages_counted", pipes.writes)
+    obs.count("messages_beyond_one_pipe_buffer", pipes.big_writes)
+    if pipes.config_sent is not None:
+        # the configuration as the child reads it (through JSON) is the configuration of the parent, infinities included
+        from ropt.config.enopt import EnOptConfig  # noqa: PLC0415
+
+        sx = dict(spec, optimizer=dict(spec["optimizer"], method="external/" + spec["optimizer"]["method"]))
+        want = EnOptConfig.model_validate(ens.make_config_dict(sx)).model_dump(round_trip=True)
+        got = EnOptConfig.model_validate(json.loads(json.dumps(pipes.config_sent, default=lambda o: o.tolist() if hasattr(o, "tolist") else str(o)))).model_dump(round_trip=True)
+        obs.count("configurations_compared_at_the_pipe")
+        diff = _first_difference(want, got, "config")
+        if diff is not None:
+            obs.violation("configuration_read_by_the_child_differs", where=diff[0], parent=diff[1], child=diff[2], **tag)
+            return
+    if pipes.writes:
+        obs.nontrivial(case)
+    else:
+        obs.count("interceptor_not_entered")
+    _check_process_table(obs, "after the step returned", tag)
+    obs.count("trace_pairs_compared")
+    if (a["exc"] is None) != (b["exc"] is None):
+        obs.violation("exception_only_in_one_mode", in_process=repr(a["exc"]), external=repr(b["exc"]), **tag)
+        return
+    if a["code"] != b["code"]:
+        obs.violation("exit_code_differs", in_process=a["code"], external=b["code"], user_abort_at=abort_at, **tag)
+        return
+    if a["digest"] != b["digest"]:
+        # locate the first differing evaluator call
+        first = None
+        for n, (c0, c1) in enumerate(zip(a["ev"].calls, b["ev"].calls)):
+            if c0.variables.shape != c1.variables.shape or not np.array_equal(c0.variables, c1.variables):
+                first = {"call": n, "in_process": c0.variables[0], "external": c1.variables[0],
+                         "max_abs_diff": float(np.max(np.abs(c0.variables - c1.variables))) if c0.variables.shape == c1.variables.shape else None}
+                break
+        obs.violation("trace_differs_between_in_process_and_external", calls=[a["calls"], b["calls"]], first_difference=first, **tag)
+        return
+    obs.sample({"method": spec["optimizer"]["method"], "mask": spec.get("mask"), "max_functions": spec["optimizer"].get("max_functions"), "user_abort_at": abort_at,
+                "messages": pipes.writes, "evaluator_calls": b["calls"], "exit_code": b["code"], "digest": b["digest"][:16]})
+    return
+
+
 def run_case(case, obs):
     from ropt.enums import OptimizerExitCode as X  # noqa: PLC0415,N817
 
@@ -347,69 +485,22 @@ def run_case(case, obs):
     if spec.get("_partly_bounded"):
         obs.count("cases_with_partly_bounded_variables")
     if mode == "diff":
-        abort_at = None
-        if rng.random() < 0.25:
-            from ropt.exceptions import OptimizationAborted  # noqa: PLC0415
+        outdir = None
+        if case["i"] % 4 == 1:
+            # the optimizer options that are paths (a directory for what the back-end writes, files its output is sent to)
+            import tempfile  # noqa: PLC0415
 
-            abort_at = int(rng.integers(0, 4))
-        mk = (lambda: {abort_at: OptimizationAborted(exit_code=X.USER_ABORT)}) if abort_at is not None else (lambda: None)
-        start = None
-        if rng.random() < 0.4:
-            # the step is started from explicitly passed variables (restart from an earlier result)
-            start = np.asarray(spec["x0"]) + rng.uniform(-0.2, 0.2, size=spec["V"])
-            if spec.get("lb") is not None:
-                start = np.clip(start, np.asarray(spec["lb"]) + 1e-6, np.asarray(spec["ub"]) - 1e-6)
-            obs.count("explicit_start_vector_pairs")
-        a = run_trace(spec, False, raise_at=mk(), start=start)
-        slow = {int(rng.integers(0, 3)): float(rng.choice([1.3, 2.4]))} if case["i"] % 5 == 2 else None
-        pipes = Pipes()
-        pipes.install()
+            outdir = tempfile.mkdtemp(prefix="verif_c20_out_")
+            spec = dict(spec, optimizer=dict(spec["optimizer"], output_dir=outdir, **({"stdout": "optimizer.out"} if case["i"] % 8 == 1 else {"stderr": os.path.join(outdir, "optimizer.err")})))
+            case["spec"] = spec
+            obs.count("pairs_with_path_options")
         try:
-            b = run_trace(spec, True, raise_at=mk(), start=start, slow=slow)
+            return _diff_case(case, obs, spec, rng, tag)
         finally:
-            pipes.remove()
-        if slow and slow.get("slept"):
-            obs.count("external_runs_with_an_evaluation_beyond_the_polling_interval")
-        obs.count("external_runs")
-        obs.count("messages_counted", pipes.writes)
-        obs.count("messages_beyond_one_pipe_buffer", pipes.big_writes)
-        if pipes.config_sent is not None:
-            # the configuration as the child reads it (through JSON) is the configuration of the parent, infinities included
-            from ropt.config.enopt import EnOptConfig  # noqa: PLC0415
+            if outdir is not None:
+                import shutil  # noqa: PLC0415
 
-            sx = dict(spec, optimizer=dict(spec["optimizer"], method="external/" + spec["optimizer"]["method"]))
-            want = EnOptConfig.model_validate(ens.make_config_dict(sx)).model_dump(round_trip=True)
-            got = EnOptConfig.model_validate(json.loads(json.dumps(pipes.config_sent, default=lambda o: o.tolist()))).model_dump(round_trip=True)
-            obs.count("configurations_compared_at_the_pipe")
-            diff = _first_difference(want, got, "config")
-            if diff is not None:
-                obs.violation("configuration_read_by_the_child_differs", where=diff[0], parent=diff[1], child=diff[2], **tag)
-                return
-        if pipes.writes:
-            obs.nontrivial(case)
-        else:
-            obs.count("interceptor_not_entered")
-        _check_process_table(obs, "after the step returned", tag)
-        obs.count("trace_pairs_compared")
-        if (a["exc"] is None) != (b["exc"] is None):
-            obs.violation("exception_only_in_one_mode", in_process=repr(a["exc"]), external=repr(b["exc"]), **tag)
-            return
-        if a["code"] != b["code"]:
-            obs.violation("exit_code_differs", in_process=a["code"], external=b["code"], user_abort_at=abort_at, **tag)
-            return
-        if a["digest"] != b["digest"]:
-            # locate the first differing evaluator call
-            first = None
-            for n, (c0, c1) in enumerate(zip(a["ev"].calls, b["ev"].calls)):
-                if c0.variables.shape != c1.variables.shape or not np.array_equal(c0.variables, c1.variables):
-                    first = {"call": n, "in_process": c0.variables[0], "external": c1.variables[0],
-                             "max_abs_diff": float(np.max(np.abs(c0.variables - c1.variables))) if c0.variables.shape == c1.variables.shape else None}
-                    break
-            obs.violation("trace_differs_between_in_process_and_external", calls=[a["calls"], b["calls"]], first_difference=first, **tag)
-            return
-        obs.sample({"method": spec["optimizer"]["method"], "mask": spec.get("mask"), "max_functions": spec["optimizer"].get("max_functions"), "user_abort_at": abort_at,
-                    "messages": pipes.writes, "evaluator_calls": b["calls"], "exit_code": b["code"], "digest": b["digest"][:16]})
-        return
+                shutil.rmtree(outdir, ignore_errors=True)
     if mode == "kill":
         pipes = Pipes()
         pipes.kill_after = case["k"]
@@ -447,6 +538,8 @@ def run_case(case, obs):
         obs.feature("kill." + case.get("signal", "SIGKILL"))
         obs.sample({"killed_after_messages": case["k"], "signal": case.get("signal"), "outcome": repr(b["exc"]) if b["exc"] else b["code"], "rounds_after_death": pipes.rounds_after_death})
         return
+    if mode == "exit":
+        return _exit_case(case, obs, spec, tag)
     # evaluator raises at evaluation k
     class UserError(RuntimeError):
         pass
